@@ -2,6 +2,7 @@ import StorageModel.C05.Sim
 import StorageModel.C05.SelfW
 import StorageModel.C05.Self
 import StorageModel.C05.SchemaHist
+import StorageModel.C05.KeySize
 /-
   C05 — Link collections stay symmetric; ref-counted links agree on both sides.
 
@@ -476,6 +477,21 @@ theorem schema_setlinks_missing (sc : Schema) (h : List (List (GOp K))) {j : Nat
   simp only [gstep, hj, PlainOp.toOp, step, e]
   exact this
 
+/-! ### the key-size boundary of ids (C05/KeySize.lean)
+
+  bbolt refuses a `Put` key longer than 32768 bytes and a link key is the type byte plus the peer's id.
+  `Schema.gstepK big` is the model with that limit (`big` = the id cannot be a link key): AddLinks /
+  AddLink / SetLinks / SetLinkedIds / IncrementLinkCount fail with key-too-large (their transaction is
+  rolled back, so every committed state is a state of the model without the limit and all theorems
+  above apply); so does `SetLinkCount` since fix 2a864e9 (before it the error was dropped and the two
+  sides disagreed: found by this check, pre-fix behaviour witnessed by `decide` in C05/KeySize.lean). -/
+
+open Schema in
+/-- with ids below the limit the model with bbolt's key-size limit IS the model above -/
+theorem keysize_small_ids_unchanged (sc : Schema) (big : K → Bool) (g : GSt K) (op : GOp K)
+    (h : ∀ k ∈ op.keys, big k = false) : gstepK sc big g op = liftOut (gstep sc g op) :=
+  gstepK_small sc big g op h
+
 /-- in a plain or ref-counted collection the side-`s` store belongs to family `s` -/
 theorem Schema.storeAt_side {c : Schema.Coll} (hc : ∀ sd ch, c ≠ .self sd ch) {s : Side} {y : Schema.Store}
     (h : c.storeAt s = some y) : y.side = s := by
@@ -812,3 +828,4 @@ end StorageModel.Properties.C05
 #print axioms StorageModel.Properties.C05.schema_delete_succeeds_iff
 #print axioms StorageModel.Properties.C05.schema_collection_refines_spec
 #print axioms StorageModel.Properties.C05.schema_naming_irrelevant
+#print axioms StorageModel.Properties.C05.keysize_small_ids_unchanged
